@@ -15,6 +15,7 @@ section B; exemplar: c09_kernel.py).  One Gallina `Definition` per *kernel expre
       k_ge_taxa_* / k_ge_trait_*   prefix, index expression and zero-fill width of the generated TaxonNN / TraitN names
     set_h2 / set_H2
       k_h2_err / k_H2_err   self.var_err = (1.0 - h2) / h2 * var_A      (a quotient by h2, times the variance; assigned to var_err)
+      k_h2_broad / k_H2_broad   var_A = self.gpmod.var_A(pgmat) / var_G = self.gpmod.var_G(pgmat): which population variance the setter reads
     nenv setter
       k_nenv_rebroadcast    nrep is not None and len(nrep) != value and numpy.all(nrep == nrep[0])
       k_nenv_full           self._nrep = numpy.full(value, nrep[0], nrep.dtype)
@@ -323,6 +324,18 @@ def _ge_setters(repo, defs):
         e = P.the_assignment(fn, "self.var_err")
         defs.append(P.definition("k_%s_err" % arg, [("h", "Q"), ("v", "Q")], "Q", P.to_coq(e, Q({arg: "h", var: "v"})),
                                  "%s: self.var_err = %s   (%s = self.gpmod.%s(pgmat))" % (name, _src(e), var, var)))
+        # which population variance the setter reads: self.gpmod.var_A(pgmat) (breeding values) or self.gpmod.var_G(pgmat)
+        # (genotypic values: with a dominance model the design [A | D])
+        srcs = [n.value for n in ast.walk(fn) if isinstance(n, ast.Assign) and len(n.targets) == 1 and ast.unparse(n.targets[0]) == var]
+        c = _one("assignment to %s in %s" % (var, name), srcs)
+        if not (isinstance(c, ast.Call) and ast.unparse(c.func) in ("self.gpmod.var_A", "self.gpmod.var_G")
+                and [ast.unparse(a) for a in c.args] == ["pgmat"] and not c.keywords):
+            raise U("%s: %s is no longer self.gpmod.var_A(pgmat) / self.gpmod.var_G(pgmat): %s" % (name, var, _src(c)))
+        used = [n.id for n in ast.walk(e) if isinstance(n, ast.Name) and n.id.startswith("var_")]
+        if used != [var]:
+            raise U("%s: the error variance is computed from %r, not from %s alone" % (name, used, var))
+        defs.append(P.definition("k_%s_broad" % arg, [], "bool", "true" if ast.unparse(c.func) == "self.gpmod.var_G" else "false",
+                                 "%s: %s = %s  (false: variance of the breeding values, true: of the genotypic values)" % (name, var, _src(c))))
     # ---- nenv setter
     fn = _setter(repo, GE, "G_E_Phenotyping", "nenv")
     b = _body(fn)
